@@ -279,6 +279,48 @@ def smooth (win : Nat → List α) (x : List α) (windowLen : Nat) : Except Smoo
     let tot := w.sum
     .ok (convolveValid (w.map fun v => v / tot) s)
 
+/-! ### the ARMA *object*: explicit state and histories
+
+`ARMA` is a mutable object: `phi` / `theta` (property setters, each calling `set_params`), the plain attribute
+`sigma`, and `set_params()` itself re-derive nothing but `ma_poly` / `ar_poly`, which are functions of the stored
+parameters. The model's state is therefore just the triple `(phi, theta, sigma)`; every query is answered from the
+*current* triple and changes nothing. -/
+
+structure ArmaObj (α : Type) where
+  phi : List α
+  theta : List α
+  sigma : α
+
+inductive ArmaOp (α : Type) where
+  | setPhi (l : List α)       -- `arma.phi = l`
+  | setTheta (l : List α)     -- `arma.theta = l`
+  | setSigma (x : α)          -- `arma.sigma = x`
+  | setParams                 -- `arma.set_params()`
+  | impulse (n : Nat)         -- `arma.impulse_response(n)`
+  | spec (cs ss : List α)     -- `arma.spectral_density(...)` read at the points `e^{-iw} = (c, −s)`
+  | acov (k J : Nat)          -- `arma.autocovariance(k)` (series truncated at `J` terms)
+  | sim (eps : List α)        -- `arma.simulation(len eps)` with the shocks `eps`
+
+/-- state after one operation (queries leave the object unchanged) -/
+def armaUpd (o : ArmaObj α) : ArmaOp α → ArmaObj α
+  | .setPhi l => { o with phi := l }
+  | .setTheta l => { o with theta := l }
+  | .setSigma x => { o with sigma := x }
+  | _ => o
+
+/-- answer of one operation (`none` for the re-parameterisations) -/
+def armaAns (o : ArmaObj α) : ArmaOp α → Option (List α)
+  | .impulse n => some ((impulseResponse o.phi o.theta n).getD [])
+  | .spec cs ss => some ((cs.zip ss).map fun cs' => specDens o.phi o.theta o.sigma cs'.1 cs'.2)
+  | .acov k J => some ((List.range k).map fun i => acovTrunc o.phi o.theta o.sigma i J)
+  | .sim eps => some ((simulate o.phi o.theta o.sigma eps).getD [])
+  | _ => none
+
+/-- answers of a whole history, in order -/
+def armaRun (o : ArmaObj α) : List (ArmaOp α) → List (List α)
+  | [] => []
+  | op :: ops => (armaAns o op).toList ++ armaRun (armaUpd o op) ops
+
 end arith
 
 /-! ### line protocol (instance `Rat`) -/
@@ -314,8 +356,36 @@ def showOptF (o : Option Float) : String :=
   | none => "nan"
   | some f => showFloatBits f
 
+
+/-- one operation of an ARMA history on the wire: `sp:<rats>`, `st:<rats>`, `ss:<rat>`, `par`, `imp:<n>`,
+    `spec:<cs>:<ss>`, `acov:<k>:<J>`, `sim:<rats>` -/
+def parseArmaOp (t : String) : Option (ArmaOp Rat) :=
+  match t.splitOn ":" with
+  | ["sp", l] => (parseList? parseRat? l).map .setPhi
+  | ["st", l] => (parseList? parseRat? l).map .setTheta
+  | ["ss", x] => (parseRat? x).map .setSigma
+  | ["par"] => some .setParams
+  | ["imp", n] => n.toNat?.map .impulse
+  | ["spec", c, s] =>
+    match parseList? parseRat? c, parseList? parseRat? s with
+    | some cs, some ss => if cs.length = ss.length then some (.spec cs ss) else none
+    | _, _ => none
+  | ["acov", k, j] =>
+    match k.toNat?, j.toNat? with
+    | some k, some j => some (.acov k j)
+    | _, _ => none
+  | ["sim", l] => (parseList? parseRat? l).map .sim
+  | _ => none
+
 def handle (toks : List String) : String :=
   match toks with
+  | "history" :: r =>
+    match kvRats r "phi", kvRats r "theta", kvRat r "sigma", kv r "ops" with
+    | some phi, some theta, some sg, some ops =>
+      match (ops.splitOn ";").mapM parseArmaOp with
+      | some l => "|".intercalate ((armaRun ⟨phi, theta, sg⟩ l).map (showList showRat))
+      | none => "bad-op"
+    | _, _, _, _ => "bad-op"
   | "lorenz_float" :: r =>
     match kvFloats r "y" with
     | some y =>
